@@ -63,10 +63,6 @@ pub trait Kind: Send + Sync + 'static {
     const DROUNDS: u32;
     const NONCE_LEN: usize;
     fn new(key: &[u8; 32], nonce: &[u8]) -> Self::C;
-    fn snap(c: &Self::C) -> Snap;
-    fn restore(c: &mut Self::C, s: &Snap);
-    fn chacha(c: &Self::C) -> &ChaCha;
-    fn chacha_mut(c: &mut Self::C) -> &mut ChaCha;
 
     /// try_seek with the position given as the named integer type (`neg` => i32 value -pos)
     fn try_seek(c: &mut Self::C, ty: IntTy, pos: u128, neg: bool) -> Result<(), LoopError> {
@@ -93,6 +89,15 @@ pub trait Kind: Send + Sync + 'static {
     }
 }
 
+/// Access to the complete public state of a cipher object (fields of the `state: Buffer` member).
+#[cfg(feature = "internals")]
+pub trait KindInternals: Kind {
+    fn snap(c: &Self::C) -> Snap;
+    fn restore(c: &mut Self::C, s: &Snap);
+    fn chacha(c: &Self::C) -> &ChaCha;
+    fn chacha_mut(c: &mut Self::C) -> &mut ChaCha;
+}
+
 macro_rules! kind {
     ($k:ident, $ty:ty, $name:expr, $layout:expr, $dr:expr, $nl:expr) => {
         pub struct $k;
@@ -106,6 +111,9 @@ macro_rules! kind {
                 assert_eq!(nonce.len(), $nl);
                 <$ty as NewCipher>::new(GenericArray::from_slice(key), GenericArray::from_slice(nonce))
             }
+        }
+        #[cfg(feature = "internals")]
+        impl KindInternals for $k {
             fn snap(c: &Self::C) -> Snap {
                 Snap {
                     have: c.state.have,
